@@ -14,12 +14,12 @@ CLAIMS = {
              "task is created only for the members without requirement before the first wait, or under the "
              "fold-classified fact `all requirements is_done()` for that very job; that no other co_run call site "
              "exists; that is_done is true exactly on finished tasks; that the nested body is the awaited inherited run."
-             " Also: of the job's mutable state is_done() reads only the task registry, which is reset before the first start (truth tables over own task x members for nested schedulers).",
+             " Also: of the job's mutable state is_done() reads only the task registry, which is reset before the first start (truth tables over own task x members for nested schedulers). Also (= R11.2): no exit of a nested run, CancelledError edges included, leaves one of its job tasks alive.",
              "asyncio's own semantics.", ENGINE + " + truth table of is_done + who-may-call scan"),
     "C02": c("Decides the accounting shape behind `return True` (accumulator from 0, once per iteration, of non-forever "
              "tasks of the current done set, against the number of non-forever members), that the main wait covers "
              "every live task and no finished one, and that the already-started test is synchronous with task creation."
-             " Also: the abort detection is the exact exists-fold raised-and-critical; raised_exception() is the exception of the job's own task (tables, nested schedulers included); exception values are compared with None.",
+             " Also: the abort detection is the exact exists-fold raised-and-critical; raised_exception() is the exception of the job's own task (tables, nested schedulers included); exception values are compared with None. Also: every normal return of the window wrapper has awaited the job body; nothing around the awaited user coroutine of the coroutine-based job class catches, replaces or suppresses what it raises.",
              "nothing of the statement is left to runtime except asyncio itself.", ENGINE),
     "C03": c("Necessary conditions only: absence of the wedges the property names -- window slot free on every exit "
              "of the wrapper (typestate with cancellation and exception edges), failed requirements count as done and "
@@ -35,12 +35,12 @@ CLAIMS = {
     "C05": c("Decides that the abort flag is exactly `exists done task: raised and critical`, that every successor start "
              "follows a negative abort test of the same iteration, and that the abort path is cancel-all -> await-all "
              "(unbounded) -> shutdown -> return False with no wait for normal completion."
-             " Also: no slot hand-over on a critical failure; the critical flag is what the caller gave and is_critical() is that flag; exception values are compared with None; two deliveries of CancelledError are modelled.",
+             " Also: no slot hand-over on a critical failure; the critical flag is what the caller gave and is_critical() is that flag; exception values are compared with None; two deliveries of CancelledError are modelled. Also: a job that obtains its window slot after a critical job has failed does not start (the wrapper tests a flag of the window after its last suspension, and the failure path raises it); the cancellation handler of a nested run opens no shutdown phase of its own.",
              "'at that same instant' as wall-clock.", ENGINE + " + EXIT automaton"),
     "C06": c("Decides non-interference: a done task's outcome reaches scheduling decisions only in the exact masked form "
              "raised-and-critical; same slot effect on both outcomes of the wrapper; failed jobs counted and their "
              "successors released; the exception stays retrievable (registry never overwritten)."
-             " Also: the diagnostic helpers the run calls cannot raise on a job's outcome; raised_exception() tables; the critical flag is what the caller gave.",
+             " Also: the diagnostic helpers the run calls cannot raise on a job's outcome; raised_exception() tables; the critical flag is what the caller gave. Also: the run aborts exactly when some job of the batch raised and is critical (exists-fold over the done set).",
              "equality of the timed traces of two runs (relational).", "taint (non-interference) over path facts and provenance terms"),
     "C07": c("Decides the safety clause by typestate analysis of the window wrapper over every path, provenance of the "
              "queue bound, one window per activation sized by the scheduler's own jobs_window, and a who-may-start rule."
@@ -53,12 +53,12 @@ CLAIMS = {
              "behaviour exactly at T; clock quality.", ENGINE + " + EXIT automaton"),
     "C09": c("Decides that `forever` influences no start condition, candidate set or wait argument, that both sides of "
              "the completion test count non-forever jobs only, and that the success exit cancels and awaits what is pending."
-             " Also: the forever flag is stored as given and written nowhere else; the wrapper's typestate holds for forever jobs too.",
+             " Also: the forever flag is stored as given and written nowhere else; the wrapper's typestate holds for forever jobs too. Also: a forever job that obtains its window slot once the last regular job is over does not start (the window counts the members that do not run forever, one down per completion, and closes itself at zero; the wrapper tests that flag after its last suspension).",
              "instants.", ENGINE),
     "C10": c("Decides the C3 MRO table of the nestable class (which side supplies each life-cycle method, both "
              "constructors), that the nested body is the awaited inherited run with window and deadline per activation, "
              "and the failure mapping and identity."
-             " Also: the nestable class forwards every configuration parameter unchanged to both parents; construction rules and job-truthiness rule.",
+             " Also: the nestable class forwards every configuration parameter unchanged to both parents; construction rules and job-truthiness rule. Also: run() is transparent to what the tree raises.",
              "'same times as the flattened graph' (timing).", "MRO computation + " + ENGINE),
     "C11": c("Decides task-group discipline on every normal exit and, with a CancelledError edge forked at every "
              "may-suspend await of the run (inlined into the nested form) and of the broadcast, that every path leaving "
@@ -69,16 +69,16 @@ CLAIMS = {
     "C12": c("Necessary conditions: all entry jobs started before the first wait; candidates = union over all done "
              "tasks of their successors, all visited; reverse links rebuilt and exact; guard no stronger than needed; "
              "no suspension while a slot is held."
-             " Also: is_done() is true on every finished task for atomic jobs and nested schedulers alike; the acquire really waits.",
+             " Also: is_done() is true on every finished task for atomic jobs and nested schedulers alike; the acquire really waits. Also: jobs_window is what the caller gave (stored unchanged, written nowhere else).",
              "FIFO hand-over of asyncio.Queue; timing.", ENGINE),
     "C13": c("Decides tidy -> shutdown -> return on every exit, atomic early once-guard with a single writer, total "
              "unfiltered broadcast through member dispatch (MRO relay for nested schedulers), bounded wait by "
              "shutdown_timeout then cancel-and-await of stragglers, truthful boolean result."
-             " Also: the synchronous shutdown() is transparent; shutdown_timeout is what the caller gave; a coroutine-based job awaits the shutdown coroutine it was given, guarded by nothing but its presence.",
+             " Also: the synchronous shutdown() is transparent; shutdown_timeout is what the caller gave; a coroutine-based job awaits the shutdown coroutine it was given, guarded by nothing but its presence. Also: an exit of the run before any start owes the shutdown broadcast unless the member set is known empty; the cancellation handler of a nested run opens no shutdown phase of its own.",
              "handler durations.", ENGINE + " + MRO"),
     "C14": c("Decides the truth tables of the six inspection methods over the 7-point life-cycle domain for the job "
              "base class and the nestable class, writer monotonicity of the registry and running flag, and identity "
-             "flow of results and exceptions.",
+             "flow of results and exceptions. Also: every job body, nested schedulers included, is started through the window wrapper, the only place that sets the running flag.",
              "nothing beyond the meaning of asyncio.Task internals.", "truth tables by abstract evaluation + writer tables"),
     "C15": c("Decides the five proof obligations of the marking algorithm on topological_order (guard = all requirements "
              "marked and self unmarked, nothing else; progress or raise; count-guarded end; marks reset) and both forms "
@@ -100,7 +100,7 @@ CLAIMS = {
     "C19": c("Decides the chain invariant across all writers of Sequence.jobs, emptiness guards of every first/last "
              "subscript, that every dispatch branch of requires() honours remove (with KeyError form) and forwards it, "
              "indices/identity/None handling, and registration paths."
-             " Also: who may write a `required` set (frame rule); a sequence never drops a requirement received while empty.",
+             " Also: who may write a `required` set (frame rule); a sequence never drops a requirement received while empty. Also: a loop of requires() whose body can remove from self.required never iterates an argument that may be that very set.",
              "nothing.", ENGINE + " (sibling and deviance rules)"),
     "C20": c("Decides quoting of every attribute value and typing of every emitter hole, the 4-case edge table "
              "(exhaustive, exactly one per requirement, orientation, lhead/ltail), ids before use and tree-wide "
